@@ -55,6 +55,7 @@ class FnTarget:
         self.loops = {}
         self.loop_iters = {}   # loop ordinal -> name of the Verus ghost iterator (`for p in NAME: e`)
         self.hints = []
+        self.optional = set()  # ('loop', key) / ('iter', key) / ('hint', text): spliced if the anchor exists, skipped otherwise
         self.tail = None       # proof text put before the closing brace of the body (unit-returning fns only)
         self.closures = {}     # closure ordinal -> contract text for the k-th closure expression of the body
         self.omit = False
@@ -72,6 +73,34 @@ class Block:
         self.keep_attrs = False
         self.bare = False
         self.prefix = ''       # text put before the item (e.g. attributes for verus)
+
+
+def _loop_key(arg):
+    """a loop is addressed by its ordinal (`loop 2`) or by a text its header contains (`loop /self.states.iter_mut()/`)"""
+    arg = arg.strip()
+    if len(arg) >= 2 and arg[0] == '/' and arg[-1] == '/':
+        return arg[1:-1]
+    return int(arg)
+
+
+def _split_loop_arg(arg):
+    """'<key> [iter=NAME]' where key is an ordinal or /text/ -> (key, [options])"""
+    arg = arg.strip()
+    if arg.startswith('/'):
+        e = arg.rindex('/')
+        return _loop_key(arg[:e + 1]), arg[e + 1:].split()
+    parts = arg.split()
+    return _loop_key(parts[0]), parts[1:]
+
+
+def _loop_match(d, loop_no, header):
+    """key of d addressing this loop, or None"""
+    if loop_no in d:
+        return loop_no
+    for key in d:
+        if isinstance(key, str) and key in header:
+            return key
+    return None
 
 
 def _stmt_end(st, k):
@@ -201,20 +230,32 @@ class Assembler:
                             cur_field = ('member',)
                         elif d == 'prefix':
                             cur_field = ('prefix',)
-                        elif d.startswith('loop '):
-                            lp = d[5:].split()
-                            cur_field = ('loop', int(lp[0]))
-                            for opt in lp[1:]:
+                        elif d.startswith('loop? ') or d.startswith('loop '):
+                            # optional variants (`loop?`, `iter?`, `hint?`): the splice is skipped, not an anchor
+                            # loss, when the loop/statement does not exist -- lets one unit assemble against two
+                            # shapes of a function (e.g. before and after a repair); the contract decides
+                            opt_ = d.startswith('loop? ')
+                            key_, opts_ = _split_loop_arg(d[6:] if opt_ else d[5:])
+                            cur_field = ('loop', key_)
+                            if opt_:
+                                blk.cur.optional.add(('loop', key_))
+                            for opt in opts_:
                                 if not re.match(r'^iter=[A-Za-z_]\w*$', opt):
                                     raise UnitSyntax('line %d: bad loop option %r' % (i + 1, opt))
-                                blk.cur.loop_iters[int(lp[0])] = opt[5:]
+                                blk.cur.loop_iters[key_] = opt[5:]
                         elif d == 'tail':
                             cur_field = ('tail',)
                         elif d.startswith('closure '):
                             cur_field = ('closure', int(d[8:].strip()))
-                        elif d.startswith('iter '):
-                            n_, nm_ = d[5:].split()
-                            blk.cur.loop_iters[int(n_)] = nm_
+                        elif d.startswith('iter? ') or d.startswith('iter '):
+                            opt_ = d.startswith('iter? ')
+                            n_, nm_ = (d[6:] if opt_ else d[5:]).rsplit(None, 1)
+                            blk.cur.loop_iters[_loop_key(n_)] = nm_
+                            if opt_:
+                                blk.cur.optional.add(('iter', _loop_key(n_)))
+                        elif d.startswith('hint? '):
+                            cur_field = ('hint', d[6:].strip())
+                            blk.cur.optional.add(('hint', cur_field[1]))
                         elif d.startswith('hint-last '):
                             # like hint, but anchors at the LAST occurrence of the text
                             cur_field = ('hint-last', d[10:].strip())
@@ -361,7 +402,9 @@ class Assembler:
                             elif tt.text == '{' and depth == 0:
                                 break
                         j += 1
-                    if tgt and loop_no in tgt.loop_iters:
+                    header = text[t.start:st[j].start]
+                    ikey = _loop_match(tgt.loop_iters, loop_no, header) if tgt else None
+                    if ikey is not None:
                         # R7: name the Verus ghost iterator of a `for` loop: `for p in e` -> `for p in NAME: e`
                         # (ghost-only label, erased by Verus; needed to state invariants about the position)
                         kin = None
@@ -377,11 +420,12 @@ class Assembler:
                                     break
                         if kin is None:
                             raise AnchorLost('loop #%d of fn %s is not a `for .. in` loop (iter= given) in %s' % (loop_no, tgt.name, blk.relpath))
-                        edits.append((st[kin].end, st[kin].end, ' %s:' % tgt.loop_iters[loop_no]))
-                        self.rewrites.append('R7 %s:%d for-loop ghost iterator named %s' % (blk.relpath, src.line_of(t.start), tgt.loop_iters[loop_no]))
-                    if tgt and loop_no in tgt.loops:
-                        edits.append((st[j].start, st[j].start, '\n' + tgt.loops[loop_no] + '\n'))
-                        seen_loops.add(loop_no)
+                        edits.append((st[kin].end, st[kin].end, ' %s:' % tgt.loop_iters[ikey]))
+                        self.rewrites.append('R7 %s:%d for-loop ghost iterator named %s' % (blk.relpath, src.line_of(t.start), tgt.loop_iters[ikey]))
+                    lkey = _loop_match(tgt.loops, loop_no, header) if tgt else None
+                    if lkey is not None:
+                        edits.append((st[j].start, st[j].start, '\n' + tgt.loops[lkey] + '\n'))
+                        seen_loops.add(lkey)
                     if canary and (tgt is None or tgt.canary):
                         edits.append((st[j].end, st[j].end, '\nproof { assert(false); } // RBVERIF_CANARY\n'))
                         self.canaries += 1
@@ -462,8 +506,8 @@ class Assembler:
                     if n not in seen_closures:
                         raise AnchorLost('fn %s has no closure #%d (found %d) in %s' % (tgt.name, n, closure_no, blk.relpath))
                 for n in tgt.loops:
-                    if n not in seen_loops:
-                        raise AnchorLost('fn %s has no loop #%d (found %d) in %s' % (tgt.name, n, loop_no, blk.relpath))
+                    if n not in seen_loops and ('loop', n) not in tgt.optional:
+                        raise AnchorLost('fn %s has no loop #%s (found %d) in %s' % (tgt.name, n, loop_no, blk.relpath))
                 lo, hi = st[a].end, st[b].start
                 for stmt, htext, after in tgt.hints:
                     body = text[lo:hi]
@@ -473,6 +517,8 @@ class Assembler:
                     if mo:
                         nth, want, stmt = int(mo.group(1)), int(mo.group(2)), mo.group(3)
                     cnt = body.count(stmt)
+                    if cnt == 0 and ('hint', stmt) in tgt.optional:
+                        continue
                     if stmt.startswith('#LAST '):
                         stmt = stmt[6:]
                         cnt = body.count(stmt)
